@@ -27,7 +27,7 @@ func init() {
 		Assumptions: []string{
 			"pattern syntax and single-pattern matching are those of moby/patternmatcher (same library on both sides, fresh matcher per decision in the reference)",
 			"runs as root on a file system with user.* xattrs; source and destination are separate directories; the source is not modified during the copy",
-			"populated destinations never hold an entry whose type conflicts with a SELECTED source entry of the same path or with an ancestor of one (that is C15's overlay territory); in half of them up to 3 entries of a conflicting type stand at the paths of source entries that no reference selects, and half run with AlwaysReplaceExistingDestPaths: those obstacles must stay untouched (a copy that fails on such an obstacle - a regular file where a non-empty unselected directory is walked - is counted, not judged)",
+			"populated destinations never hold an entry whose type conflicts with a SELECTED source entry of the same path or with an ancestor of one (that is C15's overlay territory); in half of them up to 3 entries of a conflicting type stand at the paths of source entries that no reference selects, and half run with AlwaysReplaceExistingDestPaths: those obstacles must stay untouched and the copy must succeed",
 			"metadata of directories that existed before the copy is not judged (the statement speaks of ancestors created on demand)",
 		},
 		Cases: func(tier string) int {
@@ -415,10 +415,10 @@ func c16Run(c *core.Ctx) *core.Result {
 		return r
 	}
 	if cerr != nil && len(obstacles) > 0 {
-		// a regular file where a non-empty unselected source directory is
-		// walked makes the copy fail (ENOTDIR below it): not judged
-		r.Count("copy_failed_on_an_obstacle_not_judged", 1)
-		r.FP = fmt.Sprintf("obstacle-failed|%s|%q|%q", view.Fingerprint(), inc, exc)
+		// the obstacles stand at paths that nothing selects (and that are no
+		// ancestors of a selection): the copy has no business there and has
+		// to succeed like the filtered walk does
+		r.ViolateD("copy-failed-on-unselected-obstacle", sample, "filtered copy failed although the only conflicts are at unselected paths %q (inc=%q exc=%q): %v", obstacles, inc, exc, cerr)
 		return r
 	}
 	if len(obstacles) > 0 {
